@@ -910,3 +910,66 @@ func alwaysFreshErrorAt(f *ssa.Function, idx, depth int) bool {
 	}
 	return true
 }
+
+// lenEmptyEdge: block b ends in a test that decides whether len(x) is zero, in any spelling
+// (len(x) == 0, 0 == len(x), len(x) < 1, len(x) != 0, len(x) > 0, 1 <= len(x), negated forms).
+// Returns the len call, the successor taken when the length is zero and the one taken when it is not.
+func lenEmptyEdge(b *ssa.BasicBlock) (lc *ssa.Call, empty, nonEmpty *ssa.BasicBlock, ok bool) {
+	if len(b.Instrs) == 0 {
+		return
+	}
+	iff, isIf := b.Instrs[len(b.Instrs)-1].(*ssa.If)
+	if !isIf {
+		return
+	}
+	cond := iff.Cond
+	t, f := b.Succs[0], b.Succs[1]
+	for i := 0; i < 4; i++ {
+		u, isU := cond.(*ssa.UnOp)
+		if !isU || u.Op != token.NOT {
+			break
+		}
+		cond = u.X
+		t, f = f, t
+	}
+	bo, isB := cond.(*ssa.BinOp)
+	if !isB {
+		return
+	}
+	isLen := func(v ssa.Value) bool {
+		c, isCall := v.(*ssa.Call)
+		if !isCall {
+			return false
+		}
+		bi, isBi := c.Common().Value.(*ssa.Builtin)
+		return isBi && bi.Name() == "len"
+	}
+	op, x, y := bo.Op, bo.X, bo.Y
+	if !isLen(x) {
+		if !isLen(y) {
+			return
+		}
+		x, y = y, x
+		switch op {
+		case token.LSS:
+			op = token.GTR
+		case token.GTR:
+			op = token.LSS
+		case token.LEQ:
+			op = token.GEQ
+		case token.GEQ:
+			op = token.LEQ
+		}
+	}
+	k, isK := constInt(y)
+	if !isK {
+		return
+	}
+	switch {
+	case op == token.EQL && k == 0, op == token.LSS && k == 1, op == token.LEQ && k == 0:
+		return x.(*ssa.Call), t, f, true
+	case op == token.NEQ && k == 0, op == token.GTR && k == 0, op == token.GEQ && k == 1:
+		return x.(*ssa.Call), f, t, true
+	}
+	return
+}
